@@ -95,7 +95,7 @@ Step(e) ==
          IF ph[e.fan] = "Sweep" THEN \E p \in 0..255 : SweepEnd(e.fan, p)
          ELSE ph[e.fan] = "MapRun" /\ Skip
     [] e.ev = "MeasureBegin" -> MeasBegin(e.fan)
-    [] e.ev = "AnalysisEnd" -> \E p \in {-1} : MeasEnd(e.fan, pwm[e.fan])
+    [] e.ev = "AnalysisEnd" -> MeasEnd(e.fan, pwm[e.fan]) \/ MeasFail(e.fan)
     [] e.ev = "Attached" -> Attached(e.fan)
     [] e.ev = "LoopStarted" -> LoopStart(e.fan)
     [] e.ev = "CycleEnd" ->
